@@ -172,7 +172,9 @@ def compare_runs(case, obs, pred):
 def gen_random(rng, n, tier):
     for _ in range(n):
         yield fsrun.gen_scenario(rng, dry=False, fault=False, strategies=("stop",), links=rng.random() < 0.2,
-                                 universe_name=["a", "b", "c", "d", "x", "y", "z", "e.txt"],
+                                 # (valid names only: a plan made of them is applied or meets a real conflict; some are names
+                                 #  that other platforms refuse)
+                                 universe_name=["a", "b", "c", "d", "x", "y", "z", "e.txt", "con", "a:b", "q?", "x.", "a*b", "NUL.txt"],
                                  universe_path=["a", "b", "c", "x", "y", "s/x", "s/a", "t/y", "n/x", "n/m/y"])
 
 
